@@ -27,6 +27,7 @@ ASSUMPTIONS = [
 ]
 SHARDS = {"quick": 8, "thorough": 16}
 MIN_REACH = {
+    "crops_sown_anew_whose_settings_file_kept_its_size_and_time_stamp": {"quick": 3, "thorough": 10},
     "earlier_crops_whose_cleanup_hit_an_error": {"quick": 5, "thorough": 100},
     "pipelines_reaped": {"quick": 120, "thorough": 2000},
     "crops_also_reaped_as_a_table": {"quick": 8, "thorough": 120},
@@ -113,11 +114,32 @@ def cases(ctx):
             c["jitter_us"] = 30000
         yield c
 
+    # a crop deleted and sown ANEW (another grid / another batching, a settings file of the same size and time stamp) while a
+    # long-lived Crop object that had looked at the earlier crop is still in use
+    for k in range(ctx.pick(4, 12)):
+        yield {"stale_settings": ["grid", "batching"][k % 2], "k": k}
+
 
 def run_case(ctx, case):
     """In some in-process pipelines ANOTHER THREAD of the calling program draws numbers from the process-wide `random`
     generator at moments of its own choosing (injected deterministically: right after each time the library seeds that
     generator, a growing number of draws): where a setting was sown and where it is reaped must not depend on that."""
+    if case.get("stale_settings"):
+        import xyzpy as _x
+        tmp_ = ctx.mkdtemp("stale")
+        try:
+            with quiet():
+                probs_, same_size_ = cropkit.stale_settings_scenario(_x, tmp_, case["stale_settings"], farmer=False)
+        except Exception as e_:
+            probs_, same_size_ = ["the scenario raised %r" % (e_,)], False
+        ctx.count("crops_sown_anew_behind_a_long_lived_crop_object")
+        if same_size_:
+            ctx.count("crops_sown_anew_whose_settings_file_kept_its_size_and_time_stamp")
+        for m_ in probs_[:2]:
+            ctx.violation(case, m_, {"api": "long-lived Crop", "oracle": "looks-at-the-crop-that-is-there", "variant": case["stale_settings"]})
+        ctx.observe(case, key=("stale", case["stale_settings"], case["k"]))
+        ctx.rmtree(tmp_)
+        return
     if not case.get("other_thread_draws"):
         return _run_case(ctx, case)
     import random as _random
